@@ -139,6 +139,9 @@ pub enum ClientStep {
 
 #[derive(Clone, Debug, Serialize, Deserialize, Default)]
 pub struct ConnScript {
+    /// removed by the minimiser: the connection is never opened
+    #[serde(default)]
+    pub disabled: bool,
     pub open_at: u64,
     pub coalesce: bool,
     /// limit on unread response bytes in flight; needs `drain`
